@@ -8,13 +8,15 @@ oq = bind_repo()
 
 
 def build_pt(d, e, sigma, kraus_per_step, dt=None, rank3_us=None, basis_v=None, caps="explicit",
-             name=None, description=None, cls=None, cap_op=None):
+             name=None, description=None, cls=None, cap_op=None, scribble=False):
     """kraus_per_step[k]: Kraus list on system (x) ancilla of step k (physical basis).
     rank3_us[k]: list of d unitaries U_t (controlled unitary in the *internal* basis) -> rank-3 tensors.
     basis_v: unitary V on the system; the PT is stored in the internal basis (rho_int = V^dag rho V) with
              transform_in/out, the physical maps being (V x 1) K_int (V^dag x 1).
     caps: 'explicit' -> set_cap_tensor for all steps; 'computed' -> last future bond closed with the trace
-          vector and pt.compute_caps()."""
+          vector and pt.compute_caps().
+    scribble: hand every tensor over in a work buffer that is re-used for the next step of the same shape, and overwrite
+          all buffers with garbage once the process tensor is built (a caller that keeps no reference to its arrays)."""
     n = len(kraus_per_step) if kraus_per_step is not None else len(rank3_us)
     t_in = t_out = None
     if basis_v is not None:
@@ -27,6 +29,7 @@ def build_pt(d, e, sigma, kraus_per_step, dt=None, rank3_us=None, basis_v=None, 
     pt = cls(hilbert_space_dimension=d, dt=dt, transform_in=t_in, transform_out=t_out,
              name=name, description=description)
     sig = np.asarray(sigma, dtype=complex).reshape(e * e)
+    bufs = {}
     cap = R.cap_vec(e)
     if cap_op is not None:
         # user-defined read-out of the environment instead of the trace (caps are then NOT what compute_caps() gives)
@@ -41,13 +44,22 @@ def build_pt(d, e, sigma, kraus_per_step, dt=None, rank3_us=None, basis_v=None, 
         if caps == "computed" and k == n - 1:
             m = np.moveaxis(np.tensordot(m, cap, axes=([1], [0]))[:, None], 1, 1)
             m = m.reshape((m.shape[0], 1) + m.shape[2:])
+        if scribble:
+            buf = bufs.setdefault(m.shape, np.empty(m.shape, dtype=complex))
+            buf[...] = m
+            m = buf
         pt.set_mpo_tensor(k, m)
+    if scribble and caps == "explicit":
+        cap = np.array(cap, dtype=complex)
+        bufs["cap"] = cap
     if caps == "explicit":
         pt.set_cap_tensor(0, np.array([1.0], dtype=complex))
         for k in range(1, n + 1):
             pt.set_cap_tensor(k, cap)
     else:
         pt.compute_caps()
+    for b in bufs.values():
+        b[...] = 7.0 - 3.0j
     return pt
 
 
